@@ -70,6 +70,8 @@ var (
 	big     = flag.Int("big", 0, "add one store with that many KV keys and COUNT values around MAX_BATCH_NUM")
 	srvbig  = flag.Int("srvbig", 0, "add one live 2-partition server scenario with that many KV keys in one table and COUNT around and above MAX_BATCH_NUM")
 	conc    = flag.Int("conc", 0, "concurrent leg: that many milliseconds per engine of overlapping iterations with different MATCH patterns")
+	longrun = flag.Int("longrun", 0, "add a store with that many KV keys of which only 4 match the pattern (runs of > MAX_BATCH_NUM non-matching keys); first engine only unless -longrunall")
+	longall = flag.Bool("longrunall", false, "run the -longrun store on every engine of -engines")
 	exh     = flag.Int("exh", 0, "add the exhaustive small scope: every subset of a pool of that many names (max 10) as a collection / as the keys of a table, every COUNT in 1..3, both directions, every start cursor of the pool")
 )
 
@@ -1810,6 +1812,47 @@ func patternStore(cs, out, outx *outw) error {
 	return runStore(st, gen, cs, out, outx)
 }
 
+// longRunStore: n KV keys in one table, only those at 7, 0.8n, 0.9n and n-1 end in "-hit": between two matches
+// lie more than MAX_BATCH_NUM non-matching keys, so a per-call bound on the number of keys walked (instead of
+// matched) shows up as a short page, i.e. an early end of a MATCH iteration.
+func longRunStore(eng string, n int, cs, out, outx *outw) error {
+	st := &storeDef{id: "xlr" + eng, eng: eng, policy: "local", keys: map[string][][]byte{}}
+	hits := map[int]bool{7: true, n * 8 / 10: true, n * 9 / 10: true, n - 1: true}
+	for i := 0; i < n; i++ {
+		nm := fmt.Sprintf("t:%05d", i)
+		if hits[i] {
+			nm += "-hit"
+		}
+		st.keys["kv"] = append(st.keys["kv"], []byte(nm))
+	}
+	st.keys["kv"] = append(st.keys["kv"], []byte("t2:0-hit"), []byte("s:0-hit"))
+	gen := func() []line {
+		var ls []line
+		k := 0
+		for _, cnt := range []int{1, 3, 100, 0, 5000} {
+			for _, rev := range []string{"0", "1"} {
+				if eng == "rocksdb" && (rev == "1" || cnt == 0) {
+					continue
+				}
+				start := "-"
+				if rev == "1" {
+					start = "7e7e7e"
+				}
+				for _, cmd := range []string{"scan", "advscan"} {
+					k++
+					ls = append(ls, line{fmt.Sprintf("%s.k%d", st.id, k), "K", []string{cmd, "kv", rev, "74", start, strconv.Itoa(cnt), hx.H([]byte("*-hit"))}})
+				}
+			}
+			if cnt > 0 {
+				k++
+				ls = append(ls, line{fmt.Sprintf("%s.f%d", st.id, k), "F", []string{"kv", "74", strconv.Itoa(cnt), hx.H([]byte("*-hit"))}})
+			}
+		}
+		return ls
+	}
+	return runStore(st, gen, cs, out, outx)
+}
+
 // ---------- main ----------
 
 func main() {
@@ -1930,6 +1973,16 @@ func main() {
 		}
 		if err := runStore(st, func() []line { return cases }, cs, out, outx); err != nil {
 			fail(err)
+		}
+	}
+	if *longrun > 0 {
+		for i, e := range engs {
+			if i > 0 && !*longall {
+				break
+			}
+			if err := longRunStore(e, *longrun, cs, out, outx); err != nil {
+				fail(err)
+			}
 		}
 	}
 	if *exh > 0 {
